@@ -464,6 +464,10 @@ impl VPeerTracker {
     pub fn gc(&mut self) {
         self.0.gc()
     }
+    /// Moves the stored `disconnected_at` instants back by `by` (see `PeerTracker`).
+    pub fn verif_backdate_disconnected(&mut self, by: std::time::Duration) -> bool {
+        self.0.verif_backdate_disconnected(by)
+    }
 }
 
 /// `Counter` used by `RedbStore::close`.
